@@ -592,7 +592,25 @@ impl StepSource for Gen {
                 let off = if whence == 0 { off.max(0) } else { off };
                 Op::Seek { f, whence, off }
             }
-            10 => Op::Truncate { f: *self.rng.pick(&open_f) },
+            10 => {
+                let f = *self.rng.pick(&open_f);
+                let size = h.files.get(f as usize).and_then(|x| x.as_ref()).map_or(0, |x| m.nodes[x.0].content.len() as u64);
+                if size > 1 && self.rng.chance(1, 2) {
+                    // cut somewhere inside the file (mostly on or next to a cluster boundary), not only at the cursor's
+                    // usual places (0 after open, the end after a write)
+                    let cl = cluster.max(1);
+                    let pos = match self.rng.below(4) {
+                        0 => self.rng.range(1, size - 1),
+                        1 => ((self.rng.below(size / cl + 1)) * cl).clamp(1, size - 1),
+                        2 => ((self.rng.below(size / cl + 1)) * cl + 1).clamp(1, size - 1),
+                        _ => ((self.rng.below(size / cl + 1)) * cl).saturating_sub(1).clamp(1, size - 1),
+                    };
+                    self.queue.push_back(Op::Truncate { f });
+                    Op::Seek { f, whence: 0, off: pos as i64 }
+                } else {
+                    Op::Truncate { f }
+                }
+            }
             11 => Op::Flush { f: *self.rng.pick(&open_f) },
             12 => {
                 if has_f && (open_d.is_empty() || self.rng.chance(3, 4)) {
